@@ -20,6 +20,7 @@
    only ever receives an element that is not yet in it (the replay check
    returns earlier), so it is a list without duplicates in insertion order.
    on_threat is not supplied; silent=True.
+   rate_limit / enable_adaptive assigned on a live membrane: [lrun] below.
    Signatures are substrings, regexes of the AST of Regex.v, or HOST patterns
    (KHost f: constructs outside the AST such as back-references; the matcher is
    an arbitrary function of the content alone).  The scan consults every active
@@ -209,6 +210,62 @@ Definition names_key (cfg : mconfig) (k : list Z) (op : mop) : bool :=
   | _ => false
   end.
 
+(* ---- live reconfiguration: configuration attributes assigned between requests ----
+
+   rate_limit and enable_adaptive are plain public attributes of a Membrane (as
+   is threshold, whose assignment is what set_threshold does: OSetThreshold).
+   Nothing in the class copies them at construction: _check_rate_limit reads
+   self.rate_limit and learn_threat reads self.enable_adaptive at every call.
+   So an assignment on a LIVE membrane is an operation of a history: it
+   replaces the corresponding field of the configuration and leaves the state
+   (request times, replay memory, audit trail, learned signatures ...) alone.
+   [lrun] is a history of ordinary operations and such assignments; every
+   decision is returned together with the rate_limit in force at that call.
+   A history without assignments is an mrun (Proofs.v: lrun_plain). *)
+Inductive lop :=
+  | LOp (op : mop)
+  | LSetRate (r : option Z)            (* m.rate_limit = r *)
+  | LSetAdaptive (b : bool).           (* m.enable_adaptive = b *)
+
+Definition set_rate (cfg : mconfig) (r : option Z) : mconfig :=
+  mkMC (c_cc cfg) (c_hash cfg) r (c_adaptive cfg).
+Definition set_adaptive (cfg : mconfig) (b : bool) : mconfig :=
+  mkMC (c_cc cfg) (c_hash cfg) (c_rate cfg) b.
+
+Definition lstep (cfg : mconfig) (st : mstate) (o : lop) : mconfig * mstate * option mresult :=
+  match o with
+  | LOp op => let '(st', r) := mstep cfg st op in (cfg, st', r)
+  | LSetRate r => (set_rate cfg r, st, None)
+  | LSetAdaptive b => (set_adaptive cfg b, st, None)
+  end.
+
+(* a decision of a live history: the rate_limit in force at the call, the result *)
+Definition levent := (option Z * mresult)%type.
+
+Fixpoint lrun (cfg : mconfig) (st : mstate) (ops : list lop) : mconfig * mstate * list levent :=
+  match ops with
+  | [] => (cfg, st, [])
+  | o :: rest =>
+      let '(cfg1, st1, r) := lstep cfg st o in
+      let '(cfg2, st2, es) := lrun cfg1 st1 rest in
+      (cfg2, st2, match r with Some x => (c_rate cfg, x) :: es | None => es end)
+  end.
+
+(* the decisions that count against a limit: made while rate_limit was a
+   number, and not refused by the rate check (with rate_limit = None the
+   limiter is off: the request is neither counted nor limited) *)
+Definition counted (e : levent) : bool :=
+  match fst e with
+  | Some _ => match r_kind (snd e) with RateLimited => false | _ => true end
+  | None => false
+  end.
+Definition ladmitted (es : list levent) : list Z := map (fun e => r_time (snd e)) (filter counted es).
+
+(* number of the time stamps of l later than t - 60 s: with a monotone clock
+   and l the stamps up to a call at time t, the ones in the window (t - 60 s, t] *)
+Definition trailing (t : Z) (l : list Z) : Z :=
+  Z.of_nat (length (filter (fun u => t - window <? u) l)).
+
 (* ---- a colony: several membranes, antibody transfer ------------------------ *)
 
 (* Each Membrane object owns its state; export_antibodies() returns the values
@@ -364,7 +421,9 @@ Inductive iop :=
   | ICheck (content : list Z)
   | ITick (d : Z)
   | IAddPattern (g : sig)
-  | IReset.                            (* reset_inflammation *)
+  | IReset                             (* reset_inflammation *)
+  | ISetThreshold (t : Z).             (* im.severity_threshold = t on the live object (a plain attribute,
+                                          read by check() at every call) *)
 
 Definition istep (cc : charcls) (vals : list validator) (st : istate) (op : iop)
   : istate * option iout :=
@@ -379,6 +438,9 @@ Definition istep (cc : charcls) (vals : list validator) (st : istate) (op : iop)
   | IReset =>
       (mkIS (i_pats st) (i_threshold st) (i_decay st) (i_clock st) 0 None 0 (i_checks st) (i_blocks st),
        None)
+  | ISetThreshold t =>
+      (mkIS (i_pats st) t (i_decay st) (i_clock st) (i_level st) (i_cooldown st)
+            (i_triggers st) (i_checks st) (i_blocks st), None)
   end.
 
 (* a history of innate operations; each one comes with the validator list in
